@@ -415,19 +415,19 @@ theorem quiet_of_log {e : Event} {op : StoreOp} (a : Node) (he : evOp e = some o
   | election h v => simp [evOp] at he
   | cancelOlder h v => simp [evOp] at he
 
-theorem blk_cfg {e : Event} {a b : Node} {l : List Out} {g : List LEv} (h : Blk e a b l g) : b.cfg = a.cfg := by
+theorem blk_cfg {e : Event} {spi0 : List Spi} {a b : Node} {l : List Out} {g : List LEv} (h : Blk e spi0 a b l g) : b.cfg = a.cfg := by
   cases h with
   | quiet hq _ _ => exact hq.cfg
   | decide _ _ _ _ _ hq => exact hq.cfg
   | _ => rfl
 
 /-- **every atomic block keeps the invariant, and the statement it makes obeys the local rules** -/
-theorem blk_inv {e : Event} {T : List LEv} {a b : Node} {l : List Out} {g : List LEv} (hfit : C06.Fits a.cfg.members)
-    (hT : GInv T a) (hb : Blk e a b l g) : GInv (g.reverse ++ T) b := by
+theorem blk_inv {e : Event} {spi0 : List Spi} {T : List LEv} {a b : Node} {l : List Out} {g : List LEv} (hfit : C06.Fits a.cfg.members)
+    (hT : GInv T a) (hb : Blk e spi0 a b l g) : GInv (g.reverse ++ T) b := by
   cases hb with
   | quiet hq _ _ => exact ginv_quiet hfit hq hT
   | log op he => exact ginv_quiet hfit (quiet_of_log a he) hT
-  | accept ppm f rcpt hh hv hnone hnl hlock hsrc =>
+  | accept ppm f rcpt hh hv hnone hnl hlock hsrc hval =>
     refine ginv_store_pp hfit hT ppm f hh hv hnone ?_ ?_ rfl rfl rfl rfl (storePrepare_pps _ _) ?_
     · intro hpos
       rcases hlock with h | h | h
@@ -447,7 +447,7 @@ theorem blk_inv {e : Event} {T : List LEv} {a b : Node} {l : List Out} {g : List
     have h1 : GInv (LEv.dec (commitHash cs) :: T) a :=
       ginv_neutral hT trivial (by intro _ _ _ h; cases h) (by intro _ _ _ h; cases h) (by intro _ _ h; cases h)
     exact ginv_quiet hfit hq h1
-  | propose ppm f o hh hv hnone hlnv hf ho hown hsrc =>
+  | propose ppm f o hh hv hnone hlnv hf ho hown hsrc hreq hblk hmsg =>
     refine ginv_store_pp hfit hT ppm f hh hv hnone ?_ (fun _ => hlnv) rfl rfl rfl rfl rfl ?_
     · intro hpos
       rcases hf with h | h
@@ -455,19 +455,19 @@ theorem blk_inv {e : Event} {T : List LEv} {a b : Node} {l : List Out} {g : List
       · exact Or.inl h
     · show a.store.prepares <+: (a.store.storePP ppm).prepares
       rw [storePP_prepares]; exact List.prefix_refl _
-  | voteSend vc rcpt hv hp _ => exact ginv_vote hfit hT vc true hp (Quiet.refl a) rfl
+  | voteSend vc rcpt hv hp _ _ => exact ginv_vote hfit hT vc true hp (Quiet.refl a) rfl
   | voteStore vc hv hp hown _ _ =>
     refine ginv_vote hfit hT vc false hp ⟨rfl, Nat.le_refl _, Nat.le_refl _, rfl, storeVC_pps _ _, ?_⟩ rfl
     show a.store.prepares <+: (a.store.storeVC vc).prepares
     rw [storeVC_prepares]; exact List.prefix_refl _
 
-theorem runs_cfg {e : Event} {w w' : Term.W} {g : List LEv} (h : Runs e w w' g) : w'.n.cfg = w.n.cfg := by
+theorem runs_cfg {e : Event} {spi0 : List Spi} {w w' : Term.W} {g : List LEv} (h : Runs e spi0 w w' g) : w'.n.cfg = w.n.cfg := by
   induction h with
   | refl => rfl
   | blk _ hb => exact blk_cfg hb
   | trans _ _ ih1 ih2 => rw [ih2, ih1]
 
-theorem runs_inv {e : Event} {w w' : Term.W} {g : List LEv} (h : Runs e w w' g) :
+theorem runs_inv {e : Event} {spi0 : List Spi} {w w' : Term.W} {g : List LEv} (h : Runs e spi0 w w' g) :
     ∀ {T : List LEv}, C06.Fits w.n.cfg.members → GInv T w.n → GInv (g.reverse ++ T) w'.n := by
   induction h with
   | refl => intro T _ hT; exact hT
@@ -614,6 +614,128 @@ theorem one_hash_per_view (c : Cfg) (hfit : C06.Fits c.members) (first : Bool) (
   obtain ⟨f1, m1⟩ := mem_erase_acc h1
   obtain ⟨f2, m2⟩ := mem_erase_acc h2
   exact localValid_acc_unique hv (List.mem_reverse.mp m1) (List.mem_reverse.mp m2)
+
+/-! ## at most one acceptance per view -/
+
+def accView : LEv → Option Nat
+  | .acc v _ _ => some v
+  | _ => none
+
+/-- the views of the acceptances made so far are pairwise distinct -/
+def AccOnce (T : List LEv) : Prop := (T.filterMap accView).Nodup
+
+theorem accOnce_cons_other {T : List LEv} {x : LEv} (h : AccOnce T) (hx : accView x = none) : AccOnce (x :: T) := by
+  unfold AccOnce
+  rw [List.filterMap_cons, hx]; exact h
+
+theorem accOnce_cons_acc {T : List LEv} {n : Node} (hT : GInv T n) (h : AccOnce T) (v hash : Nat) (f : Bool)
+    (hnone : n.store.getPP n.cfg.height v = none) : AccOnce (LEv.acc v hash f :: T) := by
+  unfold AccOnce
+  rw [List.filterMap_cons]
+  simp only [accView, List.nodup_cons]
+  refine ⟨?_, h⟩
+  intro hm
+  rw [List.mem_filterMap] at hm
+  obtain ⟨x, hx, hv⟩ := hm
+  cases x with
+  | acc v' h' f' =>
+    simp only [accView, Option.some.injEq] at hv
+    subst hv
+    obtain ⟨q, hq, _⟩ := hT.accPP _ _ _ hx
+    rw [hnone] at hq; cases hq
+  | com _ _ => simp [accView] at hv
+  | lcom _ _ => simp [accView] at hv
+  | vote _ _ _ => simp [accView] at hv
+  | dec _ => simp [accView] at hv
+
+/-- every atomic block keeps the acceptances' views distinct -/
+theorem blk_accOnce {e : Event} {spi0 : List Spi} {T : List LEv} {a b : Node} {l : List Out} {g : List LEv}
+    (hT : GInv T a) (h : AccOnce T) (hb : Blk e spi0 a b l g) : AccOnce (g.reverse ++ T) := by
+  cases hb with
+  | quiet _ _ _ => exact h
+  | log _ _ => exact h
+  | accept ppm f rcpt hh hv hnone hnl hlock hsrc hval => exact accOnce_cons_acc hT h _ _ _ (by rw [hv]; exact hnone)
+  | prepared _ _ _ _ _ _ _ => exact accOnce_cons_other h rfl
+  | late _ _ _ _ _ => exact accOnce_cons_other h rfl
+  | decide _ _ _ _ _ _ _ _ _ _ => exact accOnce_cons_other h rfl
+  | propose ppm f o hh hv hnone hlnv hf ho hown hsrc hreq hblk hmsg => exact accOnce_cons_acc hT h _ _ _ (by rw [hv]; exact hnone)
+  | voteSend _ _ _ _ _ _ => exact accOnce_cons_other h rfl
+  | voteStore _ _ _ _ _ _ => exact accOnce_cons_other h rfl
+
+theorem runs_accOnce {e : Event} {spi0 : List Spi} {w w' : Term.W} {g : List LEv} (hr : Runs e spi0 w w' g) :
+    ∀ {T : List LEv}, C06.Fits w.n.cfg.members → GInv T w.n → AccOnce T → AccOnce (g.reverse ++ T) := by
+  induction hr with
+  | refl => intro T _ _ h; exact h
+  | blk _ hb => intro T _ hT h; exact blk_accOnce hT h hb
+  | trans r1 _ ih1 ih2 =>
+    intro T hfit hT h
+    have h1 := ih1 hfit hT h
+    have hT1 := runs_inv r1 hfit hT
+    have h2 := ih2 (by rw [runs_cfg r1]; exact hfit) hT1 h1
+    rw [List.reverse_append, List.append_assoc]
+    exact h2
+
+/-- the views of the acceptance statements among the effects -/
+def accViewS : Stmt → Option Nat
+  | .acc v _ => some v
+  | _ => none
+
+theorem accView_erase (T : List LEv) : (T.filterMap Term.erase).filterMap accViewS = T.filterMap accView := by
+  induction T with
+  | nil => rfl
+  | cons x xs ih =>
+    cases x with
+    | acc v h f => simp [List.filterMap_cons, Term.erase, accViewS, accView, ih]
+    | com v h => simp [List.filterMap_cons, Term.erase, accViewS, accView, ih]
+    | lcom v h => simp [List.filterMap_cons, Term.erase, accViewS, accView, ih]
+    | dec h => simp [List.filterMap_cons, Term.erase, accViewS, accView, ih]
+    | vote v pf s => cases s <;> simp [List.filterMap_cons, Term.erase, accViewS, accView, ih]
+
+/-- **at most one acceptance per view, over whole executions**: among all PREPREPAREs, PREPAREs and
+NEW_VIEWs a node sends during a term — any events, any SPI answers — no two are for the same view.  In
+particular the PREPREPARE of view 0 goes out at most once, a node never sends both a proposal and a
+PREPARE for one view, and never two PREPAREs or two NEW_VIEWs for one view. -/
+theorem one_acceptance_per_view (c : Cfg) (hfit : C06.Fits c.members) (first : Bool) (spi0 : List Spi)
+    (es : List (Event × List Spi)) (hes : ∀ x ∈ es, EventOK c x.1) :
+    (((es.foldl Exec.next (Exec.next (({ cfg := c } : Node), []) (.start first, spi0))).2.filterMap stmtOf).filterMap accViewS).Nodup := by
+  -- the run invariant, extended with AccOnce
+  have key : ∀ (s : Exec) (x : Event × List Spi), EventLocal s.1 x.1 →
+      (RunInv c s ∧ ∃ T, GInv T s.1 ∧ s.2.filterMap stmtOf = T.reverse.filterMap Term.erase ∧ AccOnce T) →
+      (RunInv c (s.next x) ∧ ∃ T, GInv T (s.next x).1 ∧ (s.next x).2.filterMap stmtOf = T.reverse.filterMap Term.erase ∧ AccOnce T) := by
+    intro s x he ⟨hi, T, hT, her, hacc⟩
+    refine ⟨runInv_next c hfit s x hi he, ?_⟩
+    obtain ⟨hc, hvo, hlv, _⟩ := hi
+    obtain ⟨w', g, hr, hstep⟩ := step_runs s.1 x.1 x.2 he hvo hlv hT.leader
+    have hfit' : C06.Fits ({ n := s.1, spi := x.2 } : Term.W).n.cfg.members := by show C06.Fits s.1.cfg.members; rw [hc]; exact hfit
+    obtain ⟨l, hl, hle⟩ := hr.erase
+    have houts : w'.outs = l := by simpa using hl
+    refine ⟨g.reverse ++ T, ?_, ?_, runs_accOnce hr hfit' hT hacc⟩
+    · unfold Exec.next; rw [hstep]; exact runs_inv hr hfit' hT
+    · unfold Exec.next; rw [hstep]
+      show (s.2 ++ w'.outs).filterMap stmtOf = _
+      rw [List.filterMap_append, her, houts, hle, List.reverse_append, List.reverse_reverse, List.filterMap_append]
+  have h0 := key (({ cfg := c } : Node), []) (.start first, spi0) ⟨rfl, rfl⟩
+    ⟨runInv_init c, [], ginv_init c, rfl, List.nodup_nil⟩
+  have hrun : ∀ (es : List (Event × List Spi)) (s : Exec), (∀ x ∈ es, EventOK c x.1) →
+      (RunInv c s ∧ ∃ T, GInv T s.1 ∧ s.2.filterMap stmtOf = T.reverse.filterMap Term.erase ∧ AccOnce T) →
+      (RunInv c (es.foldl Exec.next s) ∧ ∃ T, GInv T (es.foldl Exec.next s).1
+        ∧ (es.foldl Exec.next s).2.filterMap stmtOf = T.reverse.filterMap Term.erase ∧ AccOnce T) := by
+    intro es
+    induction es with
+    | nil => intro s _ hs; exact hs
+    | cons x rest ih =>
+      intro s hes hs
+      refine ih _ (fun y hy => hes y (List.mem_cons_of_mem _ hy)) (key s x ?_ hs)
+      exact eventLocal_of_ok s.1 x.1 (by rw [hs.1.1]; exact hes x List.mem_cons_self)
+  obtain ⟨_, T, _, her, hacc⟩ := hrun es _ hes h0
+  rw [her, accView_erase]
+  unfold AccOnce at hacc
+  have : T.reverse.filterMap accView = (T.filterMap accView).reverse := by
+    rw [List.filterMap_reverse]
+  rw [this]
+  rw [List.Nodup] at hacc ⊢
+  rw [List.pairwise_reverse]
+  exact hacc.imp (fun hne => fun e => hne e.symm)
 
 /-! ## from the local rules to `Spec.Justified` -/
 
